@@ -80,6 +80,8 @@ using bin_zoo = tl_cat_t<bin_core, bin_ext>;
     #define C15_BJOB(NAME) NAME
 #endif
 using pairs = cross_t<bin_zoo, bin_zoo>;
+using swap_zoo   = tl<zoo::SwapA&, zoo::SwapB&, zoo::SwapC&, zoo::SwapD&, zoo::SwapE&, zoo::SwapF&, zoo::SwapA, zoo::SwapB&&, int&, zoo::AdlSwap&, zoo::ThrowingAdlSwap&>;
+using swap_pairs = cross_t<swap_zoo, swap_zoo>;
 
 // concept spelled etl::NAME<T,U> against STD<T,U>
 #define C15_CONCEPT2(NAME, STD, OK, GAP)                                                                               \
@@ -194,6 +196,10 @@ int main(int argc, char** argv)
 #if MC_PART == 4 || MC_PART == 0
     m.job(C15_BJOB("binary-swap"), {"quick", "thorough"}, [](mc::Reporter& r) {
         run_columns<pairs, is_swappable_with_S2, is_swappable_with_V2, is_nothrow_swappable_with_S2,
+            is_nothrow_swappable_with_V2>(r);
+    });
+    m.job(C15_BJOB("binary-swap-asymmetric"), {"quick", "thorough"}, [](mc::Reporter& r) {
+        run_columns<swap_pairs, is_swappable_with_S2, is_swappable_with_V2, is_nothrow_swappable_with_S2,
             is_nothrow_swappable_with_V2>(r);
     });
 #endif
